@@ -7,13 +7,13 @@
     Scenario.add_objects (every object kind, list form)              scenario.py:686-765
     Scenario.remove_obstacle (single / list)                         scenario.py:836-882
     Scenario.erase_lanelet_network / replace_lanelet_network         scenario.py:884-905
-    Scenario.remove_hanging_lanelet_members / remove_lanelet         scenario.py:907-962
-    Scenario.remove_traffic_sign / _light / _intersection            scenario.py:964-1024
-    Scenario.generate_object_id                                      scenario.py:1026-1037
+    Scenario.remove_hanging_lanelet_members / remove_lanelet         scenario.py:907-964
+    Scenario.remove_traffic_sign / _light / _intersection            scenario.py:966-1031
+    Scenario.generate_object_id                                      scenario.py:1033-1044
     Scenario._is_object_id_used / _mark_object_id_as_used / _mark_object_ids_as_used /
-      _lanelet_network_object_ids                                    scenario.py:1322-1372
+      _lanelet_network_object_ids                                    scenario.py:1329-1379
     LaneletNetwork.add_* / remove_* / cleanup_traffic_*_references   lanelet.py:1597-1915
-  (line numbers of the tree after the three `fix:` commits listed in known-findings.txt)
+  (line numbers of the tree after the four `fix:` commits listed in known-findings.txt)
 
   Objects are reduced to what the id bookkeeping reads: ids, the traffic-sign / traffic-light references of a
   lanelet (they decide which signs and lights `remove_lanelet` takes along) and the incoming ids of an
@@ -226,20 +226,35 @@ def removeObstacle (s : St) (k : Nat) : St × Out :=
 
 def removeObstacles (s : St) (ks : List Nat) : St × Out := forEach removeObstacle s ks
 
-/-- `remove_traffic_sign` (single form, and the body of the list form's loop). -/
-def removeSign (s : St) (k : Nat) : St × Out :=
+/-- `remove_traffic_sign` after the guard: delete from the network, release the id. -/
+def removeSignBody (s : St) (k : Nat) : St × Out :=
   release { s with net := s.net.removeSign k } k
 
+/-- `remove_traffic_sign` (single form): a sign that is not contained → KeyError before anything changes. -/
+def removeSign (s : St) (k : Nat) : St × Out :=
+  if k ∈ s.net.signs then removeSignBody s k else (s, .err .key)
+
+/-- list form: `for sign in traffic_sign: self.remove_traffic_sign(sign)` -/
 def removeSigns (s : St) (ks : List Nat) : St × Out := forEach removeSign s ks
 
-def removeLight (s : St) (k : Nat) : St × Out :=
+def removeLightBody (s : St) (k : Nat) : St × Out :=
   release { s with net := s.net.removeLight k } k
+
+def removeLight (s : St) (k : Nat) : St × Out :=
+  if k ∈ s.net.lights then removeLightBody s k else (s, .err .key)
 
 def removeLights (s : St) (ks : List Nat) : St × Out := forEach removeLight s ks
 
-/-- `remove_intersection` (single form): the intersection id, then the incoming ids of the *argument*. -/
+/-- `remove_intersection` after the guard, `j` being the *contained* intersection with the id of the argument:
+    delete it, release its id, then the ids of its incoming elements. -/
+def removeInterBody (s : St) (j : Inter) : St × Out :=
+  andThen (release { s with net := s.net.removeInter j.id } j.id) (fun s1 => forEach release s1 j.incs)
+
+/-- `remove_intersection` (single form): looked up by the id of the argument; none → KeyError. -/
 def removeInter (s : St) (i : Inter) : St × Out :=
-  andThen (release { s with net := s.net.removeInter i.id } i.id) (fun s1 => forEach release s1 i.incs)
+  match s.net.inters.find? (fun j => j.id = i.id) with
+  | some j => removeInterBody s j
+  | none => (s, .err .key)
 
 /-- list form: `for inter in intersection: self.remove_intersection(inter)`. -/
 def removeInters (s : St) (is : List Inter) : St × Out := forEach removeInter s is
@@ -256,8 +271,12 @@ def hangingLights (s : St) (ls : List Lanelet) : List Nat :=
   let remaining := s.net.lanelets.filter (fun l => l.id ∉ rm)
   s.net.lights.filter (fun t => t ∈ ls.flatMap (·.lights) ∧ t ∉ remaining.flatMap (·.lights))
 
-def dropLanelet (s : St) (l : Lanelet) : St × Out :=
+def dropLaneletBody (s : St) (l : Lanelet) : St × Out :=
   release { s with net := s.net.removeLanelet l.id } l.id
+
+/-- body of the loop at the end of `remove_lanelet`: no lanelet with this id → KeyError. -/
+def dropLanelet (s : St) (l : Lanelet) : St × Out :=
+  if l.id ∈ s.net.lanelets.map (·.id) then dropLaneletBody s l else (s, .err .key)
 
 /-- `remove_lanelet(lanelet, referenced_elements)`. -/
 def removeLanelets (s : St) (ls : List Lanelet) (refd : Bool) : St × Out :=
@@ -271,7 +290,7 @@ def removeLanelets (s : St) (ls : List Lanelet) (refd : Bool) : St × Out :=
 def eraseLanelet (s : St) (k : Nat) : St × Out :=
   match s.net.lanelets.find? (fun l => l.id = k) with
   | some l => removeLanelets s [l] true
-  | none => release s k      -- not reachable while the dict keys are unique
+  | none => (s, .err .key)   -- not reachable while the dict keys are unique
 
 /-- `erase_lanelet_network` (scenario.py:884-896). -/
 def erase (s : St) : St × Out :=
@@ -289,7 +308,7 @@ def listMax : List Nat → Nat
   | [] => 0
   | a :: as => max a (listMax as)
 
-/-- `generate_object_id` (scenario.py:1026-1037). -/
+/-- `generate_object_id` (scenario.py:1033-1044). -/
 def genId (s : St) : St × Out :=
   let c0 := s.counter.getD 0
   let c1 := if s.idSet.isEmpty then c0 else max c0 (listMax s.idSet)
